@@ -186,6 +186,9 @@ class FunctorPool:
             self.data = data
             self.chunk_size = chunk_size
             self.pool = pool
+            # set in the creating thread, so the consumer never sees the flags of a finished/previous call
+            self.pool._sending_work = True
+            self.pool._data_cnt = 0
 
         def run(self) -> None:
             self.pool._sending_work = True
